@@ -223,9 +223,9 @@ theorem dmin_ge_dlim {dlim : ℝ} {lo nx : ℝ × ℝ} {rest : List (ℝ × ℝ)
   have := pow10_strictMono.monotone hle
   rwa [pow10_log10 dlim h.lim0] at this
 
-/-- discarding the points below the limit leaves a first segment that satisfies `StrictSeg` when no given diameter coincides with the limit -/
+/-- discarding the points at or below the limit leaves a first segment that satisfies `StrictSeg` when the LAST given diameter lies strictly above the limit -/
 theorem skipBelow_strict (dlim B : ℝ) (hB : B < 0.999) : ∀ (fuel : Nat) (lo nx : ℝ × ℝ) (rest : List (ℝ × ℝ)) (pl : Nat),
-    InputOK dlim lo nx rest B → (∀ p ∈ nx :: rest, p.2 ≠ dlim) → rest.length < fuel →
+    InputOK dlim lo nx rest B → dlim < ((nx :: rest).getLast (List.cons_ne_nil _ _)).2 → rest.length < fuel →
     StrictSeg dlim (skipBelow dlim fuel lo nx rest pl).1 (skipBelow dlim fuel lo nx rest pl).2.1 (skipBelow dlim fuel lo nx rest pl).2.2.1 B := by
   intro fuel
   induction fuel with
@@ -240,7 +240,8 @@ theorem skipBelow_strict (dlim B : ℝ) (hB : B < 0.999) : ∀ (fuel : Nat) (lo 
       cases rest with
       | nil =>
         simp only [List.getLast_singleton] at hlast
-        exact absurd (le_antisymm hgt hlast) (hne nx List.mem_cons_self)
+        simp only [List.getLast_singleton] at hne
+        exact absurd hgt (not_le.2 hne)
       | cons t rest' =>
         simp only
         have hc'' := List.isChain_cons_cons.1 hc'.2
@@ -254,7 +255,7 @@ theorem skipBelow_strict (dlim B : ℝ) (hB : B < 0.999) : ∀ (fuel : Nat) (lo 
         · refine ⟨hc'.2, by linarith [hc'.1.1], by linarith [hc'.1.2], fun p hp => hle p (List.mem_cons_of_mem _ hp), hlim0, ?_⟩
           rw [List.getLast_cons (List.cons_ne_nil _ _)] at hlast
           exact hlast
-        · exact fun p hp => hne p (List.mem_cons_of_mem _ hp)
+        · rw [List.getLast_cons (List.cons_ne_nil _ _)] at hne; exact hne
         · simp only [List.length_cons] at hl; omega
     · rw [if_neg hgt]
       exact
